@@ -768,30 +768,44 @@ def _build(spec, variant=None):
         variant['after_sets'](B, rng)
     # probabilities
     _probset(fset, m.p, spec['pset'], arr, rso)
-    # adaptation
-    for v, x in zip(spec['xvars'], xs):
-        part = v['partition']
-        # the block left implicit is the one that is declared last in `order`
-        order = [i for i in v['order']]
-        for bi in order[:-1] if len(part) > 1 else []:
-            blk = part[bi]
-            if labels is None:
-                x.adapt(blk if len(blk) > 1 or rng.random() < 0.5 else blk[0])
-            else:
-                lab = [labels[i] for i in blk]
-                x.adapt(lab if len(lab) > 1 or rng.random() < 0.5 else lab[0])
-        if v['mask'] is not None:
-            mk = np.array(v['mask'])
-            if mk.all() and rng.random() < 0.5:
-                x.adapt(z)
-            else:
-                for i in range(v['n']):
-                    if mk[i].all() and rng.random() < 0.5:
-                        x[i].adapt(z)
-                    else:
-                        for j in range(nz):
-                            if mk[i, j]:
-                                x[i].adapt(z[j])
+    # adaptation (variant 'late_adapt': the calls are made after all constraints were added, by
+    # the caller, through B.do_adapt - 'event': only the event-wise ones, 'all': every call)
+    def do_adapt(which, arng):
+        for v, x in zip(spec['xvars'], xs):
+            part = v['partition']
+            # the block left implicit is the one that is declared last in `order`
+            order = [i for i in v['order']]
+            for bi in order[:-1] if len(part) > 1 and 'event' in which else []:
+                blk = part[bi]
+                if labels is None:
+                    x.adapt(blk if len(blk) > 1 or arng.random() < 0.5 else blk[0])
+                else:
+                    lab = [labels[i] for i in blk]
+                    x.adapt(lab if len(lab) > 1 or arng.random() < 0.5 else lab[0])
+            if v['mask'] is not None and 'affine' in which:
+                mk = np.array(v['mask'])
+                if mk.all() and arng.random() < 0.5:
+                    x.adapt(z)
+                else:
+                    for i in range(v['n']):
+                        if mk[i].all() and arng.random() < 0.5:
+                            x[i].adapt(z)
+                        else:
+                            for j in range(nz):
+                                if mk[i, j]:
+                                    x[i].adapt(z[j])
+
+    late = variant.get('late_adapt')
+    B.pending_adapt = None
+    if not late:
+        do_adapt(('event', 'affine'), rng)
+    else:
+        arng_ = np.random.default_rng(spec['spell'] + 99)
+        if late == 'event':
+            do_adapt(('affine',), rng)
+            B.pending_adapt = lambda: do_adapt(('event',), arng_)
+        else:
+            B.pending_adapt = lambda: do_adapt(('event', 'affine'), arng_)
 
     def expr(e):
         terms = []
